@@ -23,12 +23,13 @@ RULE = ("seeded storage layouts (full grid or sub-rectangle incl. negative indic
 COMPONENTS = {"real": ["ROMS Grid (subgrid slices, masks, sdepth)", "ROMS Forcing (_read_velocity, z2s, sample3DUV, "
                        "force_particles)", "Model loop", "netCDF4 on tmpfs"],
               "stub": ["synthetic ocean files", "reference interpolation and independent s-coordinate formulas (oracle)"]}
-ASSUMPTIONS = ["particles within 1e-9 of a cell edge are not judged (own cell ambiguous)",
+ASSUMPTIONS = ["a particle within 1e-9 of a cell edge may take the level pair and scalars of either adjoining cell, "
+               "but of one and the same cell",
                "positions outside the valid region (clipped RK stage positions) are not judged"]
 TIERS = {"quick": dict(runs=800, budget_s=50, shrink=150),
          "thorough": dict(runs=60000, budget_s=900, shrink=250)}
 REQUIRED_PROBES = ["subgrid", "packed", "land_face_touched", "above_top_level", "below_bottom_level",
-                   "edge_position", "subgrid_pair_compared"]
+                   "edge_position", "subgrid_pair_compared", "tie_position_judged"]
 
 PROFILE = gen.profile(
     nsteps=(1, 4), p_reversed=0.15, grid_i=(8, 18), grid_j=(8, 16), p_land=0.7, p_islands=0.7, p_channel=0.3,
@@ -109,6 +110,37 @@ def judge_probes(res: Result, sc, ref, rec, tagp="C02"):
                 src = ref.scalar_any_frame(name, float(got[p])) if name != "w" else None
                 res.add(Violation(f"{tagp}.scalar", n, f"{name} particle {p} at ({X[p]:.4f},{Y[p]:.4f},{Z[p]:.3f})",
                                   f"{got[p]:.8g} (frame,level,j,i)={src}", f"{lo[p]:.8g} or {hi[p]:.8g}"))
+        # positions exactly on a cell edge or corner belong to two or four cells: the velocity and every scalar must
+        # be those of ONE of them (level pair and weight from that cell's depth column, scalars from that cell)
+        tie = ref.in_valid(X, Y) & ref.near_tie(X, Y) & np.isfinite(U) & np.isfinite(V)
+        for p in np.nonzero(tie)[0][:40]:
+            xs, ys, zs = X[p:p + 1], Y[p:p + 1], Z[p:p + 1]
+            fits, tried = False, []
+            for (jc, ic) in ref.tie_cells(float(X[p]), float(Y[p])):
+                kl, kh, aa, nr = ref.vertical(xs, ys, zs, cells=(np.array([jc]), np.array([ic])))
+                if nr[0]:
+                    fits = True       # depth on an s-level of a candidate cell: bracket ambiguous as well
+                    break
+                uc, vc = ref.velocity(xs, ys, zs, float(n), vert=(kl, kh, aa))
+                good = abs(U[p] - uc[0]) <= tol and abs(V[p] - vc[0]) <= tol
+                vals = {}
+                for name in truth.scalar_names(sc):
+                    if name not in pr["vars"] or len(pr["vars"][name]) != len(X):
+                        continue
+                    F = truth.truth_scalar(sc, name, ref.latest_frame(n))
+                    g_ = float(pr["vars"][name][p])
+                    vals[name] = (g_, float(F[kl[0], jc, ic]), float(F[kh[0], jc, ic]))
+                    good = good and (abs(g_ - F[kl[0], jc, ic]) <= 1e-6 or abs(g_ - F[kh[0], jc, ic]) <= 1e-6)
+                tried.append(((jc, ic), (float(uc[0]), float(vc[0])), vals))
+                if good:
+                    fits = True
+                    break
+            res.probes["tie_position_judged"] += 1
+            if not fits:
+                res.add(Violation(f"{tagp}.tie", n, f"particle {p} on a cell edge at ({X[p]:.4f},{Y[p]:.4f},{Z[p]:.3f})",
+                                  f"u,v=({U[p]:.9g},{V[p]:.9g}) " + str({k: pr['vars'][k][p] for k in truth.scalar_names(sc) if k in pr['vars']}),
+                                  "velocity and scalars of one of the adjoining cells: " + str(tried)[:600]))
+                break
         out[n] = (int(ok.sum()), pr)
     return out
 
